@@ -329,10 +329,9 @@ class LabelBase(INET):
         return INET.__eq__(self, other)
 
     def __hash__(self) -> int:
-        # _packed includes everything; use _has_addpath as discriminator
-        if self._has_addpath:
-            return hash(self._packed)
-        return hash(b'disabled' + self._packed)
+        # __eq__ compares index(), which leaves the label stack out: the hash has to be a
+        # function of the same bytes or two equal routes hash differently
+        return hash(self.index())
 
     def __copy__(self) -> Self:
         new = self.__class__.__new__(self.__class__)
@@ -394,7 +393,9 @@ class LabelBase(INET):
         elif self.path_info is PathInfo.DISABLED:
             addpath = b'disabled'
         else:
-            addpath = self.path_info.pack_path()
+            # tagged, so that the tags (b'disabled', b'no-pi', b'path' + 4 bytes) are a
+            # prefix-free code: a bare path-id could spell the start of a sentinel
+            addpath = b'path' + bytes(self.path_info.pack_path())
         mask = bytes([self.cidr.mask])
         return Family.index(self) + bytes(addpath) + mask + self.cidr.pack_ip()
 
